@@ -41,3 +41,114 @@ class GetConnection:
         ey = (y - cy_of(x, y, r[0], r[1])) % h
         return implies(self._width is not None and self._height is not None and self._root_chip is not None,
                        result == ite((ex, ey) in self.connections, self.connections[(ex, ey)], self.connections[None]))
+
+
+# ---- the context stack (rig/utils/contexts.py) -----------------------------------------------------------
+from pyvc.values import TSeq, TList, TBool, ListV, ObjV, NONE, ExcV   # noqa: E402
+from pyvc.speclib import forall_int, forall_range, select, seq_len   # noqa: E402
+
+STACK = TSeq(TInt())                      # the deque of Context objects, by identity
+
+
+def _callback(E, obj, args, kwargs, st, node):
+    """a before_close function: recorded in the trace; it may return or raise"""
+    from pyvc.engine import Raised
+    s = st.copy()
+    s.trace = ListV(s.trace.items + (("callback", obj.fields["n"]),))
+    return [(s, NONE, None), (s, Raised(ExcV("CallbackError")), None)]
+
+
+CB = lambda n: TRec("Callback", n=TConst(n))      # noqa: E731
+from pyvc.values import TConst   # noqa: E402
+
+
+class _Boom(Exception):
+    pass
+
+
+def _run_exit(self, exception_type, fail_at):
+    import collections
+    from rig.utils.contexts import Context
+    stack = collections.deque(range(max(0, len(self.stack) - 1)))
+    c = Context({}, stack)
+    calls = []
+
+    def mk(i):
+        def fn():
+            calls.append(("callback", i))
+            if i == fail_at:
+                raise _Boom()
+        return fn
+    c.before_close(*[mk(i) for i in range(len(self._before_close))])
+    stack.append(c)
+    try:
+        c.__exit__(exception_type, None, None)
+        raised = None
+    except _Boom:
+        raised = "CallbackError"
+    return {"__native__": True, "result": None, "raised": raised, "_trace": calls, "stack_len_after": len(stack)}
+
+
+@contract("rig/utils/contexts.py::Context.__exit__")
+class ContextExit:
+    """two registered close functions (the pattern of MachineController.application plus a user hook)"""
+    properties = ("C18",)
+    params = dict(self=TRec("Context", __id__=TInt(), stack=STACK, _before_close=TList(CB(0), CB(1))),
+                  exception_type=TOpt(TInt()), exception_value=TOpt(TInt()), traceback=TOpt(TInt()))
+    externals = {"Callback.__call__": _callback}
+    raises = {"CallbackError": None}
+    assumptions = ["Context objects on the stack are modelled by identity (an integer id); T6: assert statements are executed"]
+
+    def native(self, exception_type):
+        return _run_exit(self, exception_type, None)
+
+    def requires(self):
+        return seq_len(self.stack) >= 1 and select(self.stack, seq_len(self.stack) - 1) == self.__id__
+
+    def ensures_every_close_function_runs_in_order_whatever_the_exit(self, exception_type, _trace):
+        # ... also when the block is left by an exception (exception_type is not None)
+        return len(_trace) == 2 and _trace[0] == ("callback", 0) and _trace[1] == ("callback", 1)
+
+    def ensures_restores_exactly_the_previous_stack(self, self_post):
+        return (seq_len(self_post.stack) == seq_len(self.stack) - 1
+                and forall_range(0, seq_len(self_post.stack), lambda i: select(self_post.stack, i) == select(self.stack, i)))
+
+    def raises_CallbackError(self, self_post, _trace):
+        # a failing close function: the functions before it ran, and the context is STILL removed
+        return (1 <= len(_trace) <= 2 and _trace[0] == ("callback", 0)
+                and seq_len(self_post.stack) == seq_len(self.stack) - 1)
+
+
+@contract("rig/utils/contexts.py::Context.__enter__")
+class ContextEnter:
+    properties = ("C18",)
+    params = dict(self=TRec("Context", __id__=TInt(), stack=STACK))
+
+    def ensures_pushes_itself(self, self_post):
+        n = seq_len(self.stack)
+        return (seq_len(self_post.stack) == n + 1 and select(self_post.stack, n) == self.__id__
+                and forall_range(0, n, lambda i: select(self_post.stack, i) == select(self.stack, i)))
+
+
+ARGS = TMap(TInt(), TInt())               # argument name (as an id) -> value
+CTX = TRec("Context", context_arguments=ARGS)
+
+
+@contract("rig/utils/contexts.py::ContextMixin.get_context_arguments")
+class GetContextArguments:
+    """three nested blocks (the loop over the stack is unrolled: depth 3 is complete for depth <= 3;
+    deeper stacks repeat the same update step)"""
+    properties = ("C18",)
+    params = dict(self=TRec("ContextMixin", _ContextMixin__context_stack=TList(CTX, CTX, CTX)))
+
+    def native(self):
+        raise __import__("pyvc.replay", fromlist=["OutsideHarness"]).OutsideHarness()
+
+    def ensures_innermost_block_that_sets_an_argument_wins(self, result):
+        c0 = self._ContextMixin__context_stack[0].context_arguments
+        c1 = self._ContextMixin__context_stack[1].context_arguments
+        c2 = self._ContextMixin__context_stack[2].context_arguments
+        return forall_int(lambda k: ((k in result) == (k in c0 or k in c1 or k in c2))
+                          and implies(k in c2, result[k] == c2[k])
+                          and implies(k in c1 and not (k in c2), result[k] == c1[k])
+                          and implies(k in c0 and not (k in c1) and not (k in c2), result[k] == c0[k]))
